@@ -951,7 +951,7 @@ Proof. constructor; cbn; tauto. Qed.
 
 Lemma pinv_step p l p' : PInv p -> pstep p l = Some p' -> PInv p'.
 Proof.
-  intros [A B C D E] Hs. destruct l as [c|c| |c]; unfold pstep in Hs.
+  intros [A B C D E] Hs. destruct l as [c|c|c|c]; unfold pstep in Hs.
   - destruct (nmem c (p_seen p)) eqn:En; [discriminate|]. apply nmem_false in En. injection Hs as <-.
     constructor; cbn.
     + reflexivity.
@@ -970,16 +970,17 @@ Proof.
     + intros x Hx. apply in_app_or in Hx. destruct Hx as [Hx|[<-|[]]].
       * destruct (E x Hx) as [H|H]; [left; apply in_or_app; left; exact H|right; exact H].
       * left. apply in_or_app. right. left. reflexivity.
-  - destruct (p_events p) as [|c ev] eqn:Ee; [discriminate|]. injection Hs as <-.
+  - destruct (nmem c (p_events p)) eqn:Ee; [|discriminate]. injection Hs as <-.
     constructor; cbn.
     + reflexivity.
-    + intros x Hx. apply B. right. exact Hx.
+    + intros x Hx. apply filter_In in Hx. apply B. tauto.
     + exact C.
     + intros x Hx. apply filter_In in Hx. apply D. tauto.
     + intros x Hx. destruct (N.eq_dec x c) as [->|Hne].
       * right. intros Hin. apply filter_In in Hin. destruct Hin as [_ Hin]. rewrite N.eqb_refl in Hin. discriminate.
-      * destruct (E x Hx) as [[H|H]|H]; [congruence|left; exact H|].
-        right. intros Hin. apply filter_In in Hin. tauto.
+      * destruct (E x Hx) as [H|H].
+        -- left. apply filter_In. split; [exact H|]. apply negb_true_iff. apply N.eqb_neq. exact Hne.
+        -- right. intros Hin. apply filter_In in Hin. tauto.
   - destruct (nmem c (p_shared p)); [|discriminate]. injection Hs as <-. constructor; assumption.
 Qed.
 
@@ -1012,17 +1013,17 @@ Proof.
     - destruct (pstep p l) as [q|] eqn:Eq; [|discriminate].
       assert (HIq : PInv q) by (eapply pinv_step; eassumption).
       apply (IH q p' HIq); [| |exact Hr].
-      + destruct l as [x|x| |x]; unfold pstep in Eq.
+      + destruct l as [x|x|x|x]; unfold pstep in Eq.
         * destruct (nmem x (p_seen p)); [discriminate|]. injection Eq as <-. exact Hb0.
         * destruct (nmem x (p_seen p) && negb (nmem x (p_broken p))); [|discriminate]. injection Eq as <-. cbn. apply in_or_app. left. exact Hb0.
-        * destruct (p_events p); [discriminate|]. injection Eq as <-. exact Hb0.
+        * destruct (nmem x (p_events p)); [|discriminate]. injection Eq as <-. exact Hb0.
         * destruct (nmem x (p_shared p)); [|discriminate]. injection Eq as <-. exact Hb0.
-      + destruct l as [x|x| |x]; unfold pstep in Eq.
+      + destruct l as [x|x|x|x]; unfold pstep in Eq.
         * destruct (nmem x (p_seen p)); [discriminate|]. injection Eq as <-. exact He0.
         * destruct (nmem x (p_seen p) && negb (nmem x (p_broken p))) eqn:Ec; [|discriminate]. injection Eq as <-. cbn.
           apply andb_prop in Ec. destruct Ec as [_ E2]. apply negb_true_iff in E2. apply nmem_false in E2.
           intros Hin. apply in_app_or in Hin. destruct Hin as [Hin|[<-|[]]]; tauto.
-        * destruct (p_events p) as [|y ev] eqn:Ee; [discriminate|]. injection Eq as <-. cbn. intros Hin. apply He0. right. exact Hin.
+        * destruct (nmem x (p_events p)); [|discriminate]. injection Eq as <-. cbn. intros Hin. apply filter_In in Hin. tauto.
         * destruct (nmem x (p_shared p)); [|discriminate]. injection Eq as <-. exact He0. }
   destruct (G ls2 p1 p2 I1 Hb He R2) as ([A B C D E] & Hb2 & He2).
   rewrite A. destruct (E c Hb2) as [H|H]; tauto.
@@ -1253,3 +1254,13 @@ Lemma td_terminates_reachable ctl n st e : reachable ctl st ->
   c_status (teardown n st) = Broken e /\ pending_rids (teardown n st) = [] /\
   c_err_sent (teardown n st) = true.
 Proof. intros H. exact (td_terminates n st e (inv_reachable _ _ H)). Qed.
+
+(* ---------- framing: the delivered frames are exactly the frame-aligned segmentation of the stream ---------- *)
+Lemma framing ctl st : reachable ctl st ->
+  c_received st = concat (map f_raw (c_consumed st)) ++ c_rbuf st /\
+  Forall frame_ok (c_consumed st) /\
+  (forall r f, In (r, Resp f) (c_done st) -> In f (c_consumed st)).
+Proof.
+  intros HR. apply inv_reachable in HR. repeat split; [apply (inv_recv _ HR)|apply (inv_frames _ HR)|].
+  intros r f Hin. destruct (inv_resp _ HR _ _ Hin) as [H _]. exact H.
+Qed.
